@@ -313,6 +313,9 @@ impl SyntaxTemplate {
         &self,
         substitutions: &HashMap<String, (Datum, Vec<Datum>)>,
     ) -> Result<Vec<Datum>, SchemeError> {
+        // what is copied from the template is not text of the program that uses the macro: it
+        // carries no location (the expansion stands where the macro use stands), so that an error
+        // inside an expansion is never reported in the form that defined the macro
         let location = self.location;
         match &self.data {
             SyntaxTemplateBody::Pair(list) => {
@@ -337,9 +340,7 @@ impl SyntaxTemplate {
                 }
                 let substituded_list = substituted_pair_items.into_iter().collect();
 
-                Ok(vec![
-                    DatumBody::Pair(Box::new(substituded_list)).locate(location)
-                ])
+                Ok(vec![DatumBody::Pair(Box::new(substituded_list)).no_locate()])
             }
             SyntaxTemplateBody::Vector(vec) => {
                 let mut substituted_vec = Vec::new();
@@ -349,14 +350,14 @@ impl SyntaxTemplate {
                         substitutions,
                     )?)
                 }
-                Ok(vec![DatumBody::Vector(substituted_vec).locate(location)])
+                Ok(vec![DatumBody::Vector(substituted_vec).no_locate()])
             }
             SyntaxTemplateBody::Identifier(var) => match substitutions.get(var) {
                 Some((single_datum, _)) => Ok(vec![single_datum.clone()]),
-                None => Ok(vec![DatumBody::Symbol(var.clone()).locate(location)]),
+                None => Ok(vec![DatumBody::Symbol(var.clone()).no_locate()]),
             },
             SyntaxTemplateBody::Primitive(p) => {
-                Ok(vec![DatumBody::Primitive(p.clone()).locate(location)])
+                Ok(vec![DatumBody::Primitive(p.clone()).no_locate()])
             }
             SyntaxTemplateBody::Ellipsis => {
                 located_error!(SyntaxError::UnexpectedTemplate(self.clone()), location)
@@ -388,7 +389,7 @@ impl SyntaxTemplate {
                     DatumBody::Pair(Box::new(GenericPair::from_pair_iter(
                         new_list_elements.into_iter(),
                     )?))
-                    .locate(template.location),
+                    .no_locate(),
                 )
             }
             SyntaxTemplateBody::Vector(vec) => {
@@ -399,7 +400,7 @@ impl SyntaxTemplate {
                         None => return Ok(None),
                     }
                 }
-                Some(DatumBody::Vector(new_vec).locate(template.location))
+                Some(DatumBody::Vector(new_vec).no_locate())
             }
             SyntaxTemplateBody::Identifier(var) => match substitutions.get(var) {
                 Some((_, vec)) => {
@@ -409,10 +410,10 @@ impl SyntaxTemplate {
                         vec.get(item_index).cloned()
                     }
                 }
-                None => Some(DatumBody::Symbol(var.clone()).locate(template.location)),
+                None => Some(DatumBody::Symbol(var.clone()).no_locate()),
             },
             SyntaxTemplateBody::Primitive(p) => {
-                Some(DatumBody::Primitive(p.clone()).locate(template.location))
+                Some(DatumBody::Primitive(p.clone()).no_locate())
             }
             SyntaxTemplateBody::Ellipsis => {
                 return located_error!(
